@@ -148,7 +148,12 @@ CLAIMED = {
              "C13_mm_first_after_*. FRACTIONS (Props/C13q over RecQ): C13_rat_is_valid_iff_iterated, _bounded/_unbounded, "
              "_off_grid (a probe 0 < eps < L off a member is rejected), C13_rat_next_prev, C13_rat_getitem; ops rqueryq (against "
              "the model) and rqueryfrac (oracle; found F22: get_first_after dropped the sub-second part of the offset - "
-             "repaired in /repo 6ac11ec).",
+             "repaired in /repo 6ac11ec). Props/C13r (model getFirstAfterQ of the repaired closed form over rationals, Python's float "
+             "divmod modelled exactly): C13_rat_first_after_exact(_second_point) - for every exact interval L > 0 and any probe the "
+             "result is the member at start + (floor((p - start)/L) + 1)*L in the probe's zone: a member, strictly later, none "
+             "between; None iff beyond the last member; the start before the series; C13_rat_first_after_is_valid; "
+             "C13_first_after_floor_witness (the pre-repair version returns a non-member); _floor_agrees_on_whole_seconds (the "
+             "repair is conservative); C13_rat_first_after_extends_int. Op rfirstq.",
         design="DESIGN §8 C13",
         technique="Lean 4 proof + model/implementation correspondence"),
     "C14": dict(
